@@ -41,6 +41,10 @@ claim("C02", "registry agreement between persisters (record-kind byte + encoded 
       "Decides C02.1-C02.6: every persisted record kind has a restorer decoding the same type (27 kinds) and vice versa; each of the 36 schema tables is persisted+restored, derived-and-rebuilt, or listed; restorers that run after the index records never lower an index row; FSM.Restore swaps only after commit, under the state lock, refreshes subscriptions and abandons the old store; restore and online registration share ensureRegistrationTxn; the secret-UUID table is rebuilt completely. Equality of restored content with persisted content needs the round trip and is not decided.",
       "DESIGN.md section 3 C02")
 
+claim("C07", "dominance of catalog inserts by parent lookups (edge cut); cascade must-flow + fed-consumer provenance on the node/service row deleters; must-flow of derived-table maintainers on the registration path; who-may-call for the usage writer; paired-effect must-flow in the virtual-IP allocator; provenance of the read-modify-written mesh-topology row",
+      "Decides C07.1-C07.6: services/checks rows are inserted only below successful parent lookups; node and service deletes look up and delete their dependants and reach the derived-table cleanups; the services insert path always maintains kind-service-names and (for connect) the topology; usage is written only from txn.Commit; free-list/counter/assignment writes of the VIP allocator are paired; the topology row rewritten derives from the row read. Equality of derived views with a recomputation and VIP uniqueness over histories are not decided.",
+      "DESIGN.md section 3 C07")
+
 NA_REASON = {}
 
 checks = []
